@@ -197,6 +197,9 @@ func genOPCase(focus string) *rapid.Generator[OPCase] {
 		if focus == "C18" {
 			reloadDraw %= 3
 		}
+		if focus == "C17" {
+			reloadDraw %= 4 // rotation is about what happens when windows move: every other case reloads
+		}
 		switch reloadDraw {
 		case 0:
 			c.Reload = "add-route"
@@ -208,6 +211,18 @@ func genOPCase(focus string) *rapid.Generator[OPCase] {
 			}
 			if len(refs) > 0 {
 				c.Reload, c.ExpireID = "expire-secret", rapid.SampledFrom(refs).Draw(t, "expire_id")
+				// half of the time the reload differs from the first file in nothing but the *value* of a
+				// valid_until that was already there: the version starts in the past and is valid now
+				if rapid.Bool().Draw(t, "only_until_moves") {
+					for i := range c.Secrets {
+						if c.Secrets[i].ID == c.ExpireID {
+							if c.Secrets[i].FromD > -2 {
+								c.Secrets[i].FromD = -20 - i
+							}
+							c.Secrets[i].UntilD = rapid.SampledFrom([]int{1, 5, 40}).Draw(t, "until_now")
+						}
+					}
+				}
 			}
 		}
 		c.Body = []byte(rapid.SampledFrom([]string{"{}", "{\"k\":1}", "", "\x00\xff binary"}).Draw(t, "body"))
